@@ -338,6 +338,8 @@ def mutate(rng, B, how):
     from evo.core.trajectory import Plane
     n = B.num_poses
     T = gen.rand_se3(rng, tscale=3.0)
+    if how in ("transform", "transform_right", "propagate") and rng.random() < .5:
+        T[:3, :3] *= float(10.0**rng.uniform(-0.5, 0.5))  # every variant also with a Sim(3) matrix
     if how == "transform":
         B.transform(T)
     elif how == "transform_right":
